@@ -2,6 +2,8 @@ import MxModel.Proofs.ExecEdits
 import MxModel.Proofs.ExecCertOps
 import MxModel.Proofs.ExecObj
 import MxModel.Proofs.ExprRanked
+import MxModel.Proofs.ExecCertRunOps
+import MxModel.Proofs.ExecCertExamples
 import MxModel.Exec.Expr
 /-!
 # C08 – graph and cache agree; the graph is acyclic
@@ -500,5 +502,86 @@ example : (evalTop (withCached hEnv 1 true) (2, k1)
 
 example : StaysRanked idLt (hEnv, {}) [.eval (2, k1), .setCached 1 true, .eval (2, k1)] :=
   ⟨hEnv_ranked, ranked_withCached hEnv_ranked 1 true, ranked_withCached hEnv_ranked 1 true, trivial⟩
+
+/-! ## The full edit language
+
+`C02.Op` is the union of the edit languages of the executor family – thirteen operations:
+evaluations (hits, misses, failed, stopped by the limit), value assignment, `clear_at`, `clear`,
+`clear_all`, reference set / delete, formula edit, `is_cached` switch, cells deleted, cells created,
+`set_recursion`, administrative calls.  Every reachable state has the certificate invariant
+(`C02.reachable_ci`), whose first component is `GI`; the graph statements follow for every reachable
+state of THAT language – in the regime `C02.WF` (terminating, `NoCatch`, statically scoped), which
+`C02.Admissible` keeps across formula edits and cells creation. -/
+
+theorem reachable_inv_full (lt : Node → Node → Prop) (ho : StrictOrder lt) (env0 : Env)
+    (hw0 : C02.WF env0 lt) (ops : List C02.Op) (hadm : C02.Admissible lt (env0, {}) ops) :
+    GI (C02.run (env0, {}) ops).1 lt (C02.run (env0, {}) ops).2 ∧ Idle (C02.run (env0, {}) ops).2 :=
+  have h := (C02.run_ci lt ho ops (env0, {}) hw0 (CI.empty env0 lt) hadm).1
+  ⟨h.gi, h.quiet.stack, h.quiet.idx⟩
+
+/-- **Graph element nodes = held elements**, all of cells that are cached NOW and exist NOW. -/
+theorem graph_nodes_eq_held_full (lt : Node → Node → Prop) (ho : StrictOrder lt) (env0 : Env)
+    (hw0 : C02.WF env0 lt) (ops : List C02.Op) (hadm : C02.Admissible lt (env0, {}) ops) (m : Node) :
+    (GNode.elem m ∈ (C02.run (env0, {}) ops).2.gn ↔ (lookup (C02.run (env0, {}) ops).2.data m).isSome) ∧
+    (GNode.elem m ∈ (C02.run (env0, {}) ops).2.gn →
+      (C02.run (env0, {}) ops).1.cached m.1 = true ∧ (C02.run (env0, {}) ops).1.alive m.1 = true) := by
+  have h := (C02.run_ci lt ho ops (env0, {}) hw0 (CI.empty env0 lt) hadm).1
+  refine ⟨⟨fun hm => ?_, fun hm => (h.gi.heldNodes m hm).1⟩,
+    fun hm => ⟨h.gi.elemCached m hm, h.alive.nodes _ hm⟩⟩
+  rcases h.gi.nodesHeld m hm with h' | h'
+  · exact h'
+  · rw [h.quiet.stack] at h'; cases h'
+
+/-- **The graph never mentions a cleared or deleted element**: both ends of every edge are nodes. -/
+theorem edges_between_nodes_full (lt : Node → Node → Prop) (ho : StrictOrder lt) (env0 : Env)
+    (hw0 : C02.WF env0 lt) (ops : List C02.Op) (hadm : C02.Admissible lt (env0, {}) ops) (a b : GNode)
+    (h : (a, b) ∈ (C02.run (env0, {}) ops).2.ge) :
+    a ∈ (C02.run (env0, {}) ops).2.gn ∧ b ∈ (C02.run (env0, {}) ops).2.gn :=
+  (reachable_inv_full lt ho env0 hw0 ops hadm).1.edgeNodes a b h
+
+/-- **The graph is acyclic** after any history of the full language. -/
+theorem graph_acyclic_full (lt : Node → Node → Prop) (ho : StrictOrder lt) (env0 : Env)
+    (hw0 : C02.WF env0 lt) (ops : List C02.Op) (hadm : C02.Admissible lt (env0, {}) ops) (a : GNode) :
+    ¬ Path (C02.run (env0, {}) ops).2.ge a a := by
+  intro p
+  obtain ⟨u, hu, h⟩ := path_ordered ho (reachable_inv_full lt ho env0 hw0 ops hadm).1 p
+  subst hu
+  rcases h with ⟨m, hm, hlt⟩ | ⟨c, hc⟩
+  · cases hm; exact ho.irrefl _ hlt
+  · cases hc
+
+theorem inputs_have_no_preds_full (lt : Node → Node → Prop) (ho : StrictOrder lt) (env0 : Env)
+    (hw0 : C02.WF env0 lt) (ops : List C02.Op) (hadm : C02.Admissible lt (env0, {}) ops) (a : GNode) (m : Node)
+    (h : (a, GNode.elem m) ∈ (C02.run (env0, {}) ops).2.ge) : m ∉ (C02.run (env0, {}) ops).2.inputs :=
+  (reachable_inv_full lt ho env0 hw0 ops hadm).1.inputsNoPreds a m h
+
+/-- **Uncached cells hold no values** – whatever flag flips, formula edits, deletions and
+re-creations the history contains: the flag that counts is the one in force NOW. -/
+theorem uncached_holds_nothing_full (lt : Node → Node → Prop) (ho : StrictOrder lt) (env0 : Env)
+    (hw0 : C02.WF env0 lt) (ops : List C02.Op) (hadm : C02.Admissible lt (env0, {}) ops) (m : Node)
+    (hc : (C02.run (env0, {}) ops).1.cached m.1 = false) :
+    lookup (C02.run (env0, {}) ops).2.data m = none := by
+  cases h : lookup (C02.run (env0, {}) ops).2.data m with
+  | none => rfl
+  | some v =>
+    have := ((reachable_inv_full lt ho env0 hw0 ops hadm).1.heldNodes m (by rw [h]; rfl)).2
+    rw [hc] at this; cases this
+
+/-- **An object node is in the graph only for a cells that is uncached NOW and exists NOW.** -/
+theorem object_nodes_only_for_uncached_full (lt : Node → Node → Prop) (ho : StrictOrder lt) (env0 : Env)
+    (hw0 : C02.WF env0 lt) (ops : List C02.Op) (hadm : C02.Admissible lt (env0, {}) ops) (c : CellId)
+    (h : GNode.obj c ∈ (C02.run (env0, {}) ops).2.gn) :
+    (C02.run (env0, {}) ops).1.cached c = false ∧ (C02.run (env0, {}) ops).1.alive c = true :=
+  have hci := (C02.run_ci lt ho ops (env0, {}) hw0 (CI.empty env0 lt) hadm).1
+  ⟨hci.alive.objs c h, hci.alive.nodes _ h⟩
+
+/-! Non-vacuity: the history `C02.yOps` (evaluations, an assignment, the deletion and re-creation of a
+cells, in the four-cells / two-spaces program with an uncached cells) is admissible; its graph. -/
+example (a : GNode) : ¬ Path (C02.run (C02.xEnv, {}) C02.yOps).2.ge a a :=
+  graph_acyclic_full idLt idLt_strict C02.xEnv C02.xEnv_wf C02.yOps C02.yOps_admissible a
+
+example : (C02.run (C02.xEnv, {}) C02.yOps).2.ge =
+    [(.elem (0, [.int 1]), .elem (2, [.int 1])), (.obj 1, .elem (2, [.int 1])),
+     (.elem (2, [.int 1]), .elem (3, []))] := by decide
 
 end MxModel.C08
